@@ -26,6 +26,9 @@ ASSUMPTIONS = [
     "every phase-tagged call carries an integer id (the class `nops` with PS='.' is only required not to crash and to keep the identities)",
     "bp_per_block_sum is judged by the bound (<= span covered by the blocks) and, when no two blocks overlap, by equality with the "
     "sum of the block extents (the pieces are then the blocks); median/avg/N50/min/max columns are not judged",
+    "split_blocks of a real PhasingStats are judged as pieces: pairwise disjoint, each made of >= 2 variants of one block, span = "
+    "max - min, and blocks are cut only where another block overlaps (two variants of a block with no other block's hull between or "
+    "around them stay in one piece); which of two overlapping blocks keeps the contested region is not prescribed",
     "the GTF is judged relationally: every feature names a phase set and starts/ends at members of it, every phased variant lies "
     "in a feature of its set",
     "the driver's VCF text writer is trusted after its output is re-parsed by an independent text decoder and compared with the abstract view",
